@@ -271,7 +271,7 @@ STREAMS = PRIM_STREAMS + [
 
 
 # ---------------------------------------------------------------- oracle: world-linear ramps through every operation
-RAMP_OPS = ["resize", "resample", "downsample", "upsample", "downsample_neg", "upsample_neg", "pyramid", "avg_pool", "crop", "pad", "center_crop", "center_pad",
+RAMP_OPS = ["resize", "resample", "downsample", "upsample", "downsample_neg", "upsample_neg", "pyramid", "avg_pool", "crop", "pad", "center_crop", "center_pad", "sample_single",
             "roi", "narrow", "conv", "sample"]
 
 
@@ -285,6 +285,24 @@ def ramp_image(g: Grid, a, b, c0=None) -> torch.Tensor:
 
 
 def gen_ramp(rng: random.Random, tier: str):
+    # an index-only operation applied to a grid whose stored size is fractional (odd size halved: 9 -> 4.5, data 5):
+    # the pair (size-changing step, index-only step) is enumerated, the operation's own arguments stay random
+    for first in ("downsample", "resample"):
+        for second in ("center_crop", "center_pad", "crop", "pad", "roi", "narrow"):
+            for k in range(_n(tier, 2, 8, 4)):
+                d = 2 if k % 2 == 0 else 3
+                gs = gen.grid_spec(rng, d, min_size=9, max_size=13 if d == 2 else 11)
+                gs["size"] = [n if n % 2 == 1 else n + 1 for n in gs["size"]]
+                yield {"grids": [gs], "ops": [first, second], "seed": rng.randrange(1 << 30),
+                       "a": [round(rng.uniform(-1, 1), 3) for _ in range(d)], "b": round(rng.uniform(-5, 5), 2)}
+    for k in range(_n(tier, 4, 12, 6)):      # a batch of images on DIFFERENT grids sampled on one common target grid
+        d = 2 if k % 2 == 0 else 3
+        g0 = gen.grid_spec(rng, d, min_size=8, max_size=12 if d == 2 else 9)
+        g1 = dict(g0)
+        key = "center" if "center" in g0 else "origin"
+        g1[key] = [v + 1.7 * sp for v, sp in zip(g0[key], g0["spacing"])]
+        yield {"grids": [g0, g1], "ops": ["sample_single"], "seed": rng.randrange(1 << 30),
+               "a": [round(rng.uniform(-1, 1), 3) for _ in range(d)], "b": round(rng.uniform(-5, 5), 2)}
     for _ in range(_n(tier, 70, 2500, 300)):
         d = rng.choice([2, 2, 3])
         n = rng.choice([1, 2])
@@ -365,6 +383,12 @@ def _apply_ramp_op(batch: ImageBatch, op: str, rng: random.Random):
             tgts.append(Grid(size=[max(2, n - 2) for n in g.size()], center=g.center() + 0.3 * g.spacing(),
                              spacing=g.spacing() * 0.9, direction=g.direction(), align_corners=not g.align_corners()))
         return batch.sample(tgts), 0
+    if op == "sample_single":
+        # one target Grid for the whole batch (each image still lies on its own grid)
+        g = batch.grid(0)
+        tgt = Grid(size=[max(2, n - 2) for n in g.size()], center=g.center() + 0.3 * g.spacing(),
+                   spacing=g.spacing() * 0.9, direction=g.direction(), align_corners=not g.align_corners())
+        return batch.sample(tgt), 0
     raise ValueError(op)
 
 
